@@ -92,6 +92,12 @@ def pytask_execute_task(session: Session, task: PTask) -> bool | None:
             )
             new_reports.append(report)
 
+        # A generated task which cannot be collected fails the task generator instead
+        # of being dropped silently.
+        for i in new_reports:
+            if i.outcome == CollectionOutcome.FAIL and i.exc_info:
+                raise i.exc_info[1]
+
         session.tasks.extend(
             i.node
             for i in new_reports
